@@ -313,6 +313,7 @@ type world struct {
 type hit struct{ key, what string }
 
 var worldSeq int64
+var lateTotal int
 
 func newWorld(max int, mode string) *world {
 	w := &world{mode: mode, max: max, rt: longTimeout, wt: longTimeout, h: &handler{byID: map[string]*cstate{}}}
@@ -369,6 +370,8 @@ func (w *world) waitFor(cond func() bool) {
 	d := ceiling
 	if w.late > 0 {
 		d = 150 * time.Millisecond
+	} else if lateTotal >= 3 {
+		d = 500 * time.Millisecond // this process has already shown deviations: keep the rest of the run short
 	}
 	deadline := time.Now().Add(d)
 	sleep := 200 * time.Microsecond
@@ -381,6 +384,7 @@ func (w *world) waitFor(cond func() bool) {
 		}
 		if time.Now().After(deadline) {
 			w.late++
+			lateTotal++
 			return
 		}
 		if cond() {
